@@ -104,10 +104,10 @@ class Injector:
 
 def plan(tier, seed):
     if tier == "quick":
-        kinds = {"refine": 28, "storage": 32, "repeat": 160, "huge": 1, "failing": 6}
+        kinds = {"refine": 28, "storage": 32, "repeat": 160, "huge": 1, "failing": 6, "userclass": 4}
         per = 8
     else:
-        kinds = {"refine": 900, "storage": 600, "repeat": 4000, "huge": 12, "failing": 120}
+        kinds = {"refine": 900, "storage": 600, "repeat": 4000, "huge": 12, "failing": 120, "userclass": 60}
         per = 60
     sh = common.shards({k: v for k, v in kinds.items() if k != "repeat"}, per_shard=per, tier=tier, seed=seed, timeout_s=3000)
     sh += common.shards({"repeat": kinds["repeat"]}, per_shard=per * 5, tier=tier, seed=seed, timeout_s=3000)
@@ -146,6 +146,12 @@ def _emulsion_field(rng, dim, k, noise):
 def gen(rng, kind, tier):
     sched = str(rng.choice(["reversed", "rotated", "random", "straggler"]))
     nproc = [2, 3, 5, "auto"][int(rng.integers(4))]
+    if kind == "userclass":
+        # candidates of a class the user derived from DiffuseDroplet, whose rendering depends on a class attribute that
+        # the session sets at run time
+        n = int(rng.integers(24, 40))
+        return {"n": n, "stretch": float(rng.choice([1.6, 0.7, 2.0])), "num_processes": nproc, "seed": int(rng.integers(1 << 30)),
+                "k": int(rng.integers(2, 5))}
     if kind == "failing":
         # a request whose serial execution raises (a NaN pixel inside one droplet, or solver options that do not go
         # with bounds): "the same result whatever the number of processes" includes that outcome
@@ -615,6 +621,40 @@ def run_huge(case, rec):
     rec.count("huge_fit_regions")
 
 
+def run_userclass(case, rec):
+    import droplets
+    import pde
+    from droplets import image_analysis as ia
+
+    from . import usercls
+
+    n = case["n"]
+    r = np.random.default_rng(case["seed"])
+    grid = pde.UnitGrid([n, n])
+    old = usercls.Squashed.stretch
+    usercls.Squashed.stretch = case["stretch"]  # configured by the session, not at import time
+    try:
+        truth, cands = [], []
+        for j in range(case["k"]):
+            c = np.array([n * (j + 0.5) / case["k"], n * float(r.uniform(0.35, 0.65))])
+            R = float(r.uniform(1.8, 0.3 * n / case["k"] + 1.5))
+            truth.append(usercls.Squashed(c, R, 1.0))
+            cands.append(usercls.Squashed(c + r.uniform(-0.4, 0.4, 2), R * float(r.uniform(0.9, 1.1)), 1.2))
+        data = np.clip(sum(t.get_phase_field(grid).data for t in truth), 0, 1)
+        field = pde.ScalarField(grid, data)
+        ser = common.monitored(rec, "userclass:serial", ia.refine_droplets, field, [c.copy() for c in cands], num_processes=1)
+        par = common.monitored(rec, "userclass:parallel", ia.refine_droplets, field, [c.copy() for c in cands], num_processes=case["num_processes"])
+    finally:
+        usercls.Squashed.stretch = old
+    label = f"{case['k']} candidates of a user-defined subclass (stretch set to {case['stretch']} at run time), num_processes={case['num_processes']}"
+    if rec.check(ser.ok and par.ok, "no-exception", f"refine_droplets raised {ser.exc!r} / {par.exc!r}; {label}"):
+        rec.check(snap(droplets.Emulsion(ser.result, copy=False)) == snap(droplets.Emulsion(par.result, copy=False)), "parallel-equals-serial",
+                  f"results with worker processes differ from the serial ones: {[(d.radius, d.interface_width) for d in par.result]} vs "
+                  f"{[(d.radius, d.interface_width) for d in ser.result]}; {label}")
+    rec.count("pools_with_candidates_of_a_user_defined_subclass")
+    rec.evaluated(nontrivial=True)
+
+
 def run_failing(case, rec):
     import droplets
     from droplets import image_analysis as ia
@@ -655,6 +695,8 @@ def run(case, rec):
         return run_huge(case, rec)
     if case["kind"] == "failing":
         return run_failing(case, rec)
+    if case["kind"] == "userclass":
+        return run_userclass(case, rec)
     if case["kind"] == "refine":
         run_pool_case(case, rec, "refine")
     elif case["kind"] == "storage":
